@@ -20,6 +20,53 @@ pub struct MemTable {
 }
 
 impl MemTable {
+    pub fn is_empty(&self) -> bool {
+        self.out.is_empty()
+            && self.tombstoned_nodes.is_empty()
+            && self.tombstoned_edges.is_empty()
+            && self.node_properties.is_empty()
+            && self.edge_properties.is_empty()
+            && self.removed_node_properties.is_empty()
+            && self.removed_edge_properties.is_empty()
+    }
+
+    /// Applies `later`, the net effect of writes made after everything in `self`, on top of
+    /// `self`. A key that `later` both tombstones and still holds was re-created after the
+    /// tombstone, so tombstones and removals go first.
+    pub fn absorb(&mut self, later: MemTable) {
+        if self.is_empty() {
+            *self = later;
+            return;
+        }
+        self.tombstoned_nodes.extend(later.tombstoned_nodes);
+        for edge in later.tombstoned_edges {
+            self.tombstone_edge(edge.src, edge.rel, edge.dst);
+        }
+        for edge in later.out.into_values().flatten() {
+            self.create_edge(edge.src, edge.rel, edge.dst);
+        }
+        for (node, keys) in later.removed_node_properties {
+            for key in keys {
+                self.remove_node_property(node, &key);
+            }
+        }
+        for (node, props) in later.node_properties {
+            for (key, value) in props {
+                self.set_node_property(node, key, value);
+            }
+        }
+        for (edge, keys) in later.removed_edge_properties {
+            for key in keys {
+                self.remove_edge_property(edge.src, edge.rel, edge.dst, &key);
+            }
+        }
+        for (edge, props) in later.edge_properties {
+            for (key, value) in props {
+                self.set_edge_property(edge.src, edge.rel, edge.dst, key, value);
+            }
+        }
+    }
+
     pub fn create_edge(&mut self, src: InternalNodeId, rel: RelTypeId, dst: InternalNodeId) {
         let key = EdgeKey { src, rel, dst };
         self.out.entry(src).or_default().push(key);
